@@ -4,6 +4,7 @@ CONSTANTS
   ViolKinds = {"v_undecl", "v_str", "v_define"}
   MaxItems = 3
   MinItems = 0
+  MaxCmt = 0
   Devs = {"NewlineLocNextLine", "SetlocAfterLookahead", "DotDotRestore"}
   Emit = TRUE
 INVARIANTS Inv_Emit
